@@ -155,6 +155,7 @@ type reportingErrorListener struct {
 	Error           error
 	document        string
 	firstErrorIndex int
+	lineStarts      []int
 }
 
 func (_this *reportingErrorListener) SyntaxError(recognizer antlr.Recognizer, offendingSymbol interface{}, line, column int, msg string, e antlr.RecognitionException) {
@@ -168,17 +169,26 @@ func (_this *reportingErrorListener) SyntaxError(recognizer antlr.Recognizer, of
 // Convert a line (1-based) and column (0-based), both counted in characters,
 // to a character index into the document.
 func (_this *reportingErrorListener) characterIndex(line, column int) int {
-	index := 0
-	for _, ch := range _this.document {
-		if line <= 1 {
-			break
+	if _this.lineStarts == nil {
+		// Once per document, not once per error: a document can have as
+		// many errors as it has characters.
+		_this.lineStarts = []int{0}
+		index := 0
+		for _, ch := range _this.document {
+			index++
+			if ch == '\n' {
+				_this.lineStarts = append(_this.lineStarts, index)
+			}
 		}
-		if ch == '\n' {
-			line--
-		}
-		index++
+		_this.lineStarts = append(_this.lineStarts, index)
 	}
-	return index + column
+	if line < 1 {
+		line = 1
+	}
+	if line > len(_this.lineStarts) {
+		line = len(_this.lineStarts)
+	}
+	return _this.lineStarts[line-1] + column
 }
 
 type bailErrorStrategy struct {
